@@ -195,7 +195,19 @@ def exec_instr(ins, regs, B):
             elif what == 'badindex':
                 A[0][ins['k']]
             elif what == 'badsetitem':
-                A[0][dec_index(ins['ix'])] = A[1]
+                # a write that raises; the graph does not contain it, so for the recorded program
+                # the buffer is unchanged -- make that true for plain operands as well (a UTPM
+                # buffer zeroes the higher coefficients of the slot before it notices that a
+                # plain right-hand side does not fit)
+                tgt = A[0]
+                data = tgt if isinstance(tgt, numpy.ndarray) else getattr(tgt, 'data', None)
+                saved = data.copy() if isinstance(data, numpy.ndarray) else None
+                try:
+                    tgt[dec_index(ins['ix'])] = A[1]
+                except Exception:
+                    if saved is not None:
+                        data[...] = saved
+                    raise
         except Exception:
             pass
         return None
